@@ -1,14 +1,19 @@
 (* C25 - HNSW search returns live, correctly ranked neighbours.  Property theorems only.
-   Model: coq/Model/Hnsw.v (hand transcription of src/hnsw/{mod,search,operations}.rs and of
-   std::collections::BinaryHeap), coq/Model/Sq8.v; tied to the code by the correspondence run. *)
+   Model: coq/Model/Hnsw.v (hand transcription of src/hnsw/{mod,search,operations}.rs, of the Active-slot
+   check of storage.rs and of std::collections::BinaryHeap), coq/Model/Sq8.v; tied to the code by the
+   correspondence run (coq/Corr/C25.v, harness/src/bin/c25.rs).
+   A history is a list of calls (Ins / Del / Vac / Reopen / Search) made by a caller that keeps the table
+   of live rows `tbl` (what the get_vector callbacks answer from); `run0 p ops` is the world (index state
+   + table) after the history; `class_of` is 0 while no node has been deleted, 1 once some node is
+   deleted, 2 once the entry point is deleted (recorded findings F-C25-1 / F-C25-2). *)
 From Coq Require Import ZArith List Bool.
-From TV Require Import Model.Hnsw Model.Sq8 Proof.HnswHeap Proof.HnswSearch.
+From TV Require Import Model.Hnsw Model.Sq8 Proof.HnswHeap Proof.HnswSearch Proof.HnswFuel Proof.HnswSound Proof.HnswAll Proof.HnswComplete Proof.Sq8.
 Import ListNotations.
 Open Scope Z_scope.
 
-(* every history, every query, every k and search width: at most k results, in non-decreasing order of
-   reported distance, and every result reported with a finite distance is a live row (a row of the
-   caller's table) whose reported distance is its true squared distance to the query *)
+(* ALL histories (deletes included), every query, k and search width: at most k results, in
+   non-decreasing order of reported distance, and every result reported with a finite distance is a
+   live row whose reported distance is its true squared distance to the query *)
 Theorem search_sound_finite :
   forall p ops q k ef l, 0 <= k ->
     search p (getv_of (tbl (run0 p ops))) (ix (run0 p ops)) q k ef = SOk l ->
@@ -16,10 +21,186 @@ Theorem search_sound_finite :
     (forall r z, In (r, Fin z) l -> exists v, a_get r (tbl (run0 p ops)) = Some v /\ z = dist2 q v).
 Proof. exact search_sound_finite_l. Qed.
 
+(* ALL histories: search returns a result list, or an error exactly for a query of the wrong dimension;
+   the model's abort (entry point = NodeId::none()) and out-of-fuel outcomes are unreachable *)
+Theorem search_total :
+  forall p ops getv q k ef,
+    match search p getv (ix (run0 p ops)) q k ef with
+    | SOk _ => True
+    | SErr => Z.of_nat (length q) <> dims p
+    | SAbort | SFuel => False
+    end.
+Proof. exact search_total_l. Qed.
+
+(* histories without a deleted node (class 0) of a caller that never inserts a live row id twice:
+   at most k results, pairwise distinct row ids, every one live and reported with its true distance,
+   in non-decreasing order of that distance *)
+Theorem search_sound :
+  forall p ops q k ef,
+    wf_ops p w0 ops = true -> class_of (ix (run0 p ops)) = 0 -> 0 <= k ->
+    match search p (getv_of (tbl (run0 p ops))) (ix (run0 p ops)) q k ef with
+    | SOk l => Z.of_nat (length l) <= k /\ NoDup (map fst l) /\ res_asc l /\ live_true (tbl (run0 p ops)) q l
+    | SErr => Z.of_nat (length q) <> dims p
+    | SAbort | SFuel => False
+    end.
+Proof. exact search_sound_l. Qed.
+
+(* ... and at least one result whenever a live vector exists (k >= 1, search width >= 1) *)
+Theorem search_nonempty :
+  forall p ops q k ef l,
+    wf_ops p w0 ops = true -> class_of (ix (run0 p ops)) = 0 ->
+    tbl (run0 p ops) <> [] -> 1 <= k -> 1 <= ef ->
+    search p (getv_of (tbl (run0 p ops))) (ix (run0 p ops)) q k ef = SOk l -> l <> [].
+Proof. exact search_nonempty_l. Qed.
+
+(* the clause fails once a node is deleted: a deleted, still linked node is reported as row id 0 (not
+   live) with distance +inf ... *)
+Theorem search_live_refuted :
+  wf_ops wit_p w0 wit1 = true /\ class_of (ix (run0 wit_p wit1)) = 1 /\
+  search wit_p (getv_of (tbl (run0 wit_p wit1))) (ix (run0 wit_p wit1)) [0;0] 2 4 = SOk [(1, Fin 0); (0, Inf)] /\
+  a_get 0 (tbl (run0 wit_p wit1)) = None.
+Proof. exact search_live_refuted_l. Qed.
+
+(* ... and once the entry point is deleted nothing live is found although a live vector exists (also
+   after vacuum and reopen), and the next insert fails *)
+Theorem search_nonempty_refuted :
+  wf_ops wit_p w0 wit2 = true /\ class_of (ix (run0 wit_p wit2)) = 2 /\
+  a_get 2 (tbl (run0 wit_p wit2)) = Some [3;4] /\
+  search wit_p (getv_of (tbl (run0 wit_p wit2))) (ix (run0 wit_p wit2)) [3;4] 2 4 = SOk [(0, Inf)] /\
+  snd (step wit_p (run0 wit_p wit2) (Ins 3 [1;1] 0 false)) = OIns false.
+Proof. exact search_nonempty_refuted_l. Qed.
+
+(* class 0: an insert of a vector of the right dimension succeeds *)
+Theorem insert_ok :
+  forall p ops row v lvl blind,
+    wf_ops p w0 (ops ++ [Ins row v lvl blind]) = true -> class_of (ix (run0 p ops)) = 0 ->
+    Z.of_nat (length v) = dims p ->
+    snd (step p (run0 p ops) (Ins row v lvl blind)) = OIns true.
+Proof. exact insert_ok_l. Qed.
+
+(* ALL histories: vacuum_batch changes nothing but its queue (it cannot read the nodes it should unlink) *)
+Theorem vacuum_never_unlinks :
+  forall p ops n,
+    let s := ix (run0 p ops) in
+    ix (run0 p (ops ++ [Vac n])) = St (nodes s) (entry s) (maxlvl s) (rowmap s) (skipn (Z.to_nat n) (vq s)).
+Proof. exact vacuum_never_unlinks_l. Qed.
+
+(* ALL histories: sync + reopen does not change the result of any search *)
+Theorem reopen_id :
+  forall p ops q k ef,
+    search p (getv_of (tbl (run0 p (ops ++ [Reopen])))) (ix (run0 p (ops ++ [Reopen]))) q k ef =
+    search p (getv_of (tbl (run0 p ops))) (ix (run0 p ops)) q k ef.
+Proof. exact reopen_id_l. Qed.
+
+(* PARTIAL (conditional on the explicit connectivity hypothesis Connected0: every node reaches every node
+   along level-0 links): in a class-0 history whose index has at most min(ef, k) nodes, search returns
+   every live row.  That insert preserves Connected0 is NOT proved (only sampled by the correspondence run) *)
+Theorem small_index_complete_partial :
+  forall p ops q k ef l,
+    wf_ops p w0 ops = true -> class_of (ix (run0 p ops)) = 0 ->
+    Connected0 (ix (run0 p ops)) ->
+    Z.of_nat (length (nodes (ix (run0 p ops)))) <= ef ->
+    Z.of_nat (length (nodes (ix (run0 p ops)))) <= k ->
+    search p (getv_of (tbl (run0 p ops))) (ix (run0 p ops)) q k ef = SOk l ->
+    forall r v, a_get r (tbl (run0 p ops)) = Some v -> In r (map fst l).
+Proof. exact small_index_complete_partial_l. Qed.
+
+(* ... whose hypotheses are met by a reachable state *)
+Example connected_witness :
+  let p := Pm 2 2 4 in let ops := [Ins 1 [0;0] 0 false; Ins 2 [3;4] 0 false] in
+  wf_ops p w0 ops = true /\ class_of (ix (run0 p ops)) = 0 /\ Connected0 (ix (run0 p ops)) /\
+  search p (getv_of (tbl (run0 p ops))) (ix (run0 p ops)) [3;3] 2 2 = SOk [(2, Fin 1); (1, Fin 18)].
+Proof. exact connected_witness_l. Qed.
+
+(* SQ8 over exact arithmetic (everything multiplied by 255): codes are bytes and every component decodes
+   to within half a quantization step of the original: 2 * |255*decode - 255*v| <= 255*scale *)
+Theorem sq8_error_bound :
+  forall l v, In v l ->
+    let mn := sq_min l in let R := sq_range l in let c := sq_code mn R v in
+    0 <= c <= 255 /\ 0 <= R /\
+    2 * Z.abs (sq_decode255 mn R c - 255 * v) <= sq_scale255 R.
+Proof. exact sq8_error_bound_l. Qed.
+
+(* non-vacuity: a well-formed class-0 history with ties, three levels and a reopen; its searches return
+   several rows; the class-1 and class-2 hypotheses are met by the witnesses above *)
+Example c25_witness :
+  let p := Pm 2 2 4 in
+  let ops := [Ins 1 [0;0] 0 false; Ins 2 [3;4] 1 false; Ins 3 [1;1] 0 false; Ins 4 [1;1] 2 true; Vac 5; Reopen; Del 9] in
+  wf_ops p w0 ops = true /\ class_of (ix (run0 p ops)) = 0 /\ tbl (run0 p ops) <> [] /\
+  search p (getv_of (tbl (run0 p ops))) (ix (run0 p ops)) [1;0] 3 8 = SOk [(3, Fin 1); (4, Fin 1); (1, Fin 1)] /\
+  search p (getv_of (tbl (run0 p ops))) (ix (run0 p ops)) [1;0;0] 3 8 = SErr /\
+  sq_encode [0; 10; 255; 510] = [0; 5; 128; 255].
+Proof. vm_compute. repeat split. discriminate. Qed.
+
 Check search_sound_finite :
   forall p ops q k ef l, 0 <= k ->
     search p (getv_of (tbl (run0 p ops))) (ix (run0 p ops)) q k ef = SOk l ->
     Z.of_nat (length l) <= k /\ res_asc l /\
     (forall r z, In (r, Fin z) l -> exists v, a_get r (tbl (run0 p ops)) = Some v /\ z = dist2 q v).
+Check search_total :
+  forall p ops getv q k ef,
+    match search p getv (ix (run0 p ops)) q k ef with
+    | SOk _ => True
+    | SErr => Z.of_nat (length q) <> dims p
+    | SAbort | SFuel => False
+    end.
+Check search_sound :
+  forall p ops q k ef,
+    wf_ops p w0 ops = true -> class_of (ix (run0 p ops)) = 0 -> 0 <= k ->
+    match search p (getv_of (tbl (run0 p ops))) (ix (run0 p ops)) q k ef with
+    | SOk l => Z.of_nat (length l) <= k /\ NoDup (map fst l) /\ res_asc l /\ live_true (tbl (run0 p ops)) q l
+    | SErr => Z.of_nat (length q) <> dims p
+    | SAbort | SFuel => False
+    end.
+Check search_nonempty :
+  forall p ops q k ef l,
+    wf_ops p w0 ops = true -> class_of (ix (run0 p ops)) = 0 ->
+    tbl (run0 p ops) <> [] -> 1 <= k -> 1 <= ef ->
+    search p (getv_of (tbl (run0 p ops))) (ix (run0 p ops)) q k ef = SOk l -> l <> [].
+Check search_live_refuted :
+  wf_ops wit_p w0 wit1 = true /\ class_of (ix (run0 wit_p wit1)) = 1 /\
+  search wit_p (getv_of (tbl (run0 wit_p wit1))) (ix (run0 wit_p wit1)) [0;0] 2 4 = SOk [(1, Fin 0); (0, Inf)] /\
+  a_get 0 (tbl (run0 wit_p wit1)) = None.
+Check search_nonempty_refuted :
+  wf_ops wit_p w0 wit2 = true /\ class_of (ix (run0 wit_p wit2)) = 2 /\
+  a_get 2 (tbl (run0 wit_p wit2)) = Some [3;4] /\
+  search wit_p (getv_of (tbl (run0 wit_p wit2))) (ix (run0 wit_p wit2)) [3;4] 2 4 = SOk [(0, Inf)] /\
+  snd (step wit_p (run0 wit_p wit2) (Ins 3 [1;1] 0 false)) = OIns false.
+Check insert_ok :
+  forall p ops row v lvl blind,
+    wf_ops p w0 (ops ++ [Ins row v lvl blind]) = true -> class_of (ix (run0 p ops)) = 0 ->
+    Z.of_nat (length v) = dims p ->
+    snd (step p (run0 p ops) (Ins row v lvl blind)) = OIns true.
+Check vacuum_never_unlinks :
+  forall p ops n,
+    let s := ix (run0 p ops) in
+    ix (run0 p (ops ++ [Vac n])) = St (nodes s) (entry s) (maxlvl s) (rowmap s) (skipn (Z.to_nat n) (vq s)).
+Check reopen_id :
+  forall p ops q k ef,
+    search p (getv_of (tbl (run0 p (ops ++ [Reopen])))) (ix (run0 p (ops ++ [Reopen]))) q k ef =
+    search p (getv_of (tbl (run0 p ops))) (ix (run0 p ops)) q k ef.
+Check small_index_complete_partial :
+  forall p ops q k ef l,
+    wf_ops p w0 ops = true -> class_of (ix (run0 p ops)) = 0 ->
+    Connected0 (ix (run0 p ops)) ->
+    Z.of_nat (length (nodes (ix (run0 p ops)))) <= ef ->
+    Z.of_nat (length (nodes (ix (run0 p ops)))) <= k ->
+    search p (getv_of (tbl (run0 p ops))) (ix (run0 p ops)) q k ef = SOk l ->
+    forall r v, a_get r (tbl (run0 p ops)) = Some v -> In r (map fst l).
+Check sq8_error_bound :
+  forall l v, In v l ->
+    let mn := sq_min l in let R := sq_range l in let c := sq_code mn R v in
+    0 <= c <= 255 /\ 0 <= R /\
+    2 * Z.abs (sq_decode255 mn R c - 255 * v) <= sq_scale255 R.
 
 Print Assumptions search_sound_finite.
+Print Assumptions search_total.
+Print Assumptions search_sound.
+Print Assumptions search_nonempty.
+Print Assumptions search_live_refuted.
+Print Assumptions search_nonempty_refuted.
+Print Assumptions insert_ok.
+Print Assumptions vacuum_never_unlinks.
+Print Assumptions reopen_id.
+Print Assumptions small_index_complete_partial.
+Print Assumptions sq8_error_bound.
